@@ -252,8 +252,17 @@ def assemble(rules, k):
     """Schema(rules[:k]) with Schema(rules[k:]) added at the empty root"""
     import valida
 
+    import copy
+
     s = valida.Schema(list(rules[:k]))
-    s.add_schema(valida.Schema(list(rules[k:])), valida.DataPath())
+    held = copy.copy(s)                    # another holder of the schema as it is now (a shallow copy: same rule list)
+    before = list(s.rules)
+    t = valida.Schema(list(rules[k:]))
+    t_held = copy.copy(t)
+    s.add_schema(t, valida.DataPath())
+    # adding to s is no business of whoever holds the earlier state, nor of the added schema's holders
+    if len(held.rules) != len(before) or any(a is not b for a, b in zip(held.rules, before)) or len(t_held.rules) != len(rules) - k:
+        raise AssertionError("add_schema changed a rule list held by somebody else")
     return s
 
 
